@@ -60,6 +60,20 @@ def gen_fault(rng, tree, cfg, kind=None):
         op = _base_edit(rng, tree, cfg, ('replace', 'put', 'put_slice', 'insert', 'append', 'remove', 'cut'))
         if op:
             op['opts'] = O.enc_opts(rng.choice(BAD_OPTS))
+        if rng.random() < 0.35:
+            # statement-level edits do preparatory rewrites of the target (one-line block split, elif -> else/if) before
+            # they format: an option value that is only refused late must not leave those behind
+            conts = [((), tree)] + [(t[0], t[1]) for t in nodes]
+            c = [(p_, n_, f_) for p_, n_ in conts for f_ in ('body', 'orelse', 'finalbody')
+                 if isinstance(getattr(n_, f_, None), list) and getattr(n_, f_) and isinstance(getattr(n_, f_)[0], ast.stmt)]
+            if c:
+                p_, n_, f_ = rng.choice(c)
+                n = len(getattr(n_, f_))
+                i = rng.randint(0, n)
+                op = {'k': 'put_slice', 'path': [list(x) for x in p_], 'field': f_, 'start': i, 'stop': rng.choice([i, min(n, i + 1)]), 'one': False,
+                      'code': O.gen_code(rng, 'stmt', 1, ('src', 'src', 'fst'), cfg.get('uniq')),
+                      'opts': O.enc_opts(rng.choice([{'pep8space': 2}, {'pep8space': 3}, {'pep8space': -1}, {'trivia': 'bad'}, {'docstr': 'x'},
+                                                     {'elif_': None}, {'pep8space': 'x'}, {'trivia': (1, 2, 3)}]))}
     elif kind == 'F6':
         op = _base_edit(rng, tree, cfg)
         if op and 'code' in op and op['code'].get('form') != 'none':
